@@ -41,17 +41,18 @@ def bounds(tier):
 
 
 GR_Q = [[4], [1], [5], [3, 4], [1, 3], [2, 2, 3]]
-GR_T = [[4], [1], [2], [5], [7], [3, 4], [1, 3], [2, 2], [4, 5], [2, 2, 3], [3, 1, 2]]
+GR_T = [[4], [1], [2], [3], [5], [7], [8], [12], [3, 4], [1, 3], [2, 2], [4, 5], [6, 6], [5, 1], [2, 2, 3], [3, 1, 2], [3, 3, 3], [2, 3, 2], [4, 2, 3]]
 
 
 def gen_cases(tier, seed):
     T = tier == "thorough"
     cases = []
+    widths = WIDTHS + ([3.5, 5, 6, 0.5] if T else [])      # thorough: wider than every axis, and narrower than one cell
     for grid in (GR_T if T else GR_Q):
         nd = len(grid)
         for cs in ("lattice", "far", "huge", "dup", "random", "random-f32"):
             for kn, prm in KERNELS:
-                ws = list(WIDTHS)
+                ws = list(widths)
                 if nd == 2:
                     ws += [[2.5, 1], [1, 2.5]]
                 if nd == 3:
